@@ -327,6 +327,131 @@ pub fn slow_outcome(c: &SlowCase) -> Outcome {
     o
 }
 
+// --------------------------------------------------------------------------------------------
+// a subscriber comes back under its announced identity while its old connection still exists
+
+#[derive(Debug, Clone, Serialize, Deserialize, PartialEq, Eq, Hash)]
+pub struct ComebackCase {
+    pub xpub: bool,
+    /// state of the old connection when the new one joins: 0 = open and idle, 1 = stalled (its
+    /// write window is closed and messages are queued for it), 2 = its writes fail
+    pub old_state: u8,
+    pub others: usize,
+    pub before: usize,
+    pub after: usize,
+}
+
+pub fn comeback_outcome(c: &ComebackCase) -> Outcome {
+    let mut o = Outcome::new(hash_of(c));
+    o.nontrivial = true;
+    o.class("subscriber-comes-back-under-its-identity");
+    let c2 = c.clone();
+    let (r, panics) = capture_panics(|| {
+        run_sim(async move {
+            let c = c2;
+            let who = if c.xpub { "XPUB" } else { "PUB" };
+            let kind = if c.xpub { Kind::XPub } else { Kind::Pub };
+            let mut f: Vec<Failure> = vec![];
+            let mut sim = Sim::new();
+            let s = sim.socket(kind, None);
+            let mut others = vec![];
+            let subscribe = |l: &Link| l.raw_send_now(&[vec![1u8]]);
+            let old = match simx::attach_raw(&mut sim, s, Some(b"sub-A")).await {
+                Ok((l, _)) => l,
+                Err(e) => {
+                    fail!(f, format!("C12/{}/setup", who), "{}", e);
+                    return f;
+                }
+            };
+            subscribe(&old);
+            for _ in 0..c.others {
+                match simx::attach_raw(&mut sim, s, None).await {
+                    Ok((l, _)) => {
+                        subscribe(&l);
+                        others.push(l);
+                    }
+                    Err(e) => {
+                        fail!(f, format!("C12/{}/setup", who), "{}", e);
+                        return f;
+                    }
+                }
+            }
+            let _ = sim.settle().await;
+            if c.xpub {
+                let _ = simx::recv_until_pending(&mut sim, s, 16).await;
+            }
+            match c.old_state {
+                1 => old.from_lib.set_window(Window::Budget(0)),
+                2 => old.from_lib.break_writer(std::io::ErrorKind::ConnectionReset),
+                _ => {}
+            }
+            let mut published: Vec<Frames> = vec![];
+            let mut publish = |sim: &mut Sim, f: &mut Vec<Failure>, published: &mut Vec<Frames>| {
+                let m = message(published.len(), 40);
+                let a = sim.send(s, &m);
+                published.push(m);
+                a
+            };
+            for _ in 0..c.before {
+                let a = publish(&mut sim, &mut f, &mut published);
+                if !matches!(sim.run(a).await, Ok(Some(Out::Send(Ok(()))))) {
+                    fail!(f, format!("C12/{}/publish-fails", who), "before the come-back");
+                    return f;
+                }
+            }
+            // the subscriber comes back on a fresh, healthy connection
+            let fresh = match simx::attach_raw(&mut sim, s, Some(b"sub-A")).await {
+                Ok((l, _)) => l,
+                Err(e) => {
+                    fail!(f, format!("C12/{}/subscriber-cannot-come-back-under-its-identity", who), "{}", e);
+                    return f;
+                }
+            };
+            subscribe(&fresh);
+            let _ = sim.settle().await;
+            if c.xpub {
+                let _ = simx::recv_until_pending(&mut sim, s, 16).await;
+            }
+            let from = published.len();
+            for _ in 0..c.after {
+                let a = publish(&mut sim, &mut f, &mut published);
+                if !matches!(sim.run(a).await, Ok(Some(Out::Send(Ok(()))))) {
+                    fail!(f, format!("C12/{}/publish-fails", who), "after the come-back");
+                    return f;
+                }
+            }
+            let _ = sim.settle().await;
+            match fresh.lib_messages() {
+                Ok(m) if m == published[from..] => {}
+                Ok(m) => fail!(
+                    f,
+                    format!("C12/{}/fresh-connection-of-a-returning-subscriber-misses-messages", who),
+                    "a subscriber came back under its identity on a connection that accepts every write (old connection: {}); it received {} of the {} messages published after it subscribed",
+                    ["open and idle", "stalled", "failing"][c.old_state as usize % 3],
+                    m.len(),
+                    published.len() - from
+                ),
+                Err(e) => fail!(f, format!("C12/{}/wire-malformed", who), "fresh connection: {}", e),
+            }
+            for (i, l) in others.iter().enumerate() {
+                match l.lib_messages() {
+                    Ok(m) if m == published => {}
+                    Ok(m) => fail!(f, format!("C12/{}/healthy-subscriber-affected", who), "bystander {} received {} of {} messages while another subscriber came back", i, m.len(), published.len()),
+                    Err(e) => fail!(f, format!("C12/{}/wire-malformed", who), "bystander {}: {}", i, e),
+                }
+            }
+            f
+        })
+    });
+    if let Some(f) = r {
+        o.failures = f;
+    }
+    for p in panics {
+        o.fail(format!("C12/panic/{}", panic_sig(&p)), p);
+    }
+    o
+}
+
 pub fn gen_slow(s: &mut Src<'_>, budget_bytes: usize) -> SlowCase {
     let xpub = s.bool();
     let with_healthy = s.chance(2, 3);
@@ -370,6 +495,22 @@ pub fn gen_slow(s: &mut Src<'_>, budget_bytes: usize) -> SlowCase {
 pub fn run(ctx: &Ctx) -> (Report, PropertyMeta) {
     let mut report = Report::default();
     let t = ctx.tier;
+    // a subscriber that comes back under its identity while its old connection still exists
+    {
+        let mut cc = vec![];
+        for xpub in [false, true] {
+            for old_state in 0..3u8 {
+                for others in 0..=2usize {
+                    for (before, after) in [(0usize, 3usize), (3, 5), (40, 40)] {
+                        cc.push(ComebackCase { xpub, old_state, others, before, after });
+                    }
+                }
+            }
+        }
+        let r = run_cases(ctx, "comeback", &cc, comeback_outcome);
+        report.exhaustive_parts.push(format!("PUB/XPUB x a subscriber with an announced identity coming back on a fresh connection while its old one is idle / stalled / failing x 0..2 bystanders x 3 publish counts: {} cases", cc.len()));
+        report.merge(r);
+    }
     // enumerated: stall at publish 2 with every budget class, sizes around the HWM, resume later
     let mut cases = vec![];
     for xpub in [false, true] {
@@ -422,6 +563,7 @@ pub fn run(ctx: &Ctx) -> (Report, PropertyMeta) {
 pub fn replay(_ctx: &Ctx, kind: &str, case: &Value) -> Vec<Failure> {
     match kind {
         "slow" => parse_case::<SlowCase>(case).map(|c| slow_outcome(&c).failures),
+        "comeback" => parse_case::<ComebackCase>(case).map(|c| comeback_outcome(&c).failures),
         _ => Err(vec![Failure::new("replay/unknown-kind", kind.to_string())]),
     }
     .unwrap_or_else(|e| e)
